@@ -1716,13 +1716,22 @@ impl Block {
                                             //
                                             // Create a special rebroadcast for triple NFT group
                                             //
-                                            let rebroadcast_tx =
+                                            let mut rebroadcast_tx =
                                                 Transaction::create_rebroadcast_bound_transaction(
                                                     transaction,
                                                     output1,
                                                     input2.clone(),
                                                     output3,
                                                 );
+
+                                            //
+                                            // the payload comes back worth the payout less the
+                                            // rebroadcast fee which is booked into total_fees_atr
+                                            // below (create_rebroadcast_bound_transaction copies
+                                            // the input amount into the output)
+                                            //
+                                            rebroadcast_tx.to[1].amount = output2.amount;
+                                            rebroadcast_tx.generate_total_fees(0, 0);
 
                                             cv.total_payout_atr +=
                                                 surplus_payout_to_subtract_from_treasury;
